@@ -96,7 +96,7 @@ def push_out(v, r):
 def pairs(seed, n):
     r = random.Random(seed)
     out = []
-    alphabet = [bytes([b]) for b in b"0123456789+-:. TZz%/abMP\t\n\xff"]
+    alphabet = [bytes([b]) for b in b"0123456789+-:. TZz%/abMP\t\n\v\f\r\xa0\x85\xff"]
     for _ in range(n):
         fmt, ren = r.choice(TEMPLATES)
         v = rand_fields(r, True)
@@ -153,6 +153,9 @@ def pairs(seed, n):
           ("%G %V %u", "2020 53 7"), ("%s", "+5"), ("%s", " 5"), ("%s", "5 "), ("%s%z", "5+0100"), ("%Ez", "+00:00"), ("%Ez", "-00:00"), ("%Ez", "+24:00"),
           ("%Ez", "+23:59"), ("%Ez", "-23:59"), ("%z", "+2359"), ("%z", "+2400"), ("%z", "+9959"), ("%E*z", "+23:59:59"), ("%E*z", "-00:00:01"),
           ("%E*z", "+00:00:60"), ("%::z", "+00:60:00"), ("%z %z", "+0100 -0100"), ("%Y %Y", "2020 2021"), ("%H %H", "05 06"), ("%S %s", "05 77"),
+          ("%Y-%m-%d %H:%M:%S", "2020-01-02\v03:04:05"), ("%Y-%m-%d", "2020-01-02\f"), ("%Y-%m-%d", "\v\f\r2020-01-02"), ("%Y-%m-%d %Z", "2020-01-02 UTC\fjunk"),
+          ("%Y-%m-%d %Z", "2020-01-02 UTC\vjunk"), ("%Y-%m-%d %Z", "2020-01-02 UTC\rjunk"), ("%Y %m", "2020\r\n05"), ("%Y %m", "2020\xa005"), ("%Y\v%m", "2020 05"),
+          ("%Y\f%m", "2020\t05"), ("%Z", "A\x0bB"), ("%Z %Y", "A\x0c2020"),
           ("%Z %z", "UTC +0100"), ("%z %Z", "+0100 PST"), ("%Z", "Europe/Paris"), ("%Z", "A B")]
     out += [(a.encode(), b.encode()) for a, b in D]
     for _ in range(n // 10):     # unstructured pairs
